@@ -112,3 +112,18 @@ Record key (T : Type) : Type := mkKey { ktype : T; knum : bool }.
 Arguments mkKey {T} _ _.
 Arguments ktype {T} _.
 Arguments knum {T} _.
+
+(* ---- "X is set" premises -------------------------------------------------------------- *)
+(* A Python value as far as `X is None`, `X is not None` and the truthiness test `if X:` can
+   tell: None, present but falsy (0, "", b"", False, a zero-length Duration, an empty
+   collection), present and truthy.  The translators keep the two tests apart. *)
+Inductive pv : Type := PNone | PFalsy | PTruthy.
+Definition pv_none (v : pv) : bool := match v with PNone => true | _ => false end.
+Definition pv_truthy (v : pv) : bool := match v with PTruthy => true | _ => false end.
+
+(* a last_update argument: None, a datetime whose tzname() is "UTC", any other datetime (naive
+   or another zone); datetime objects are always truthy *)
+Inductive upd : Type := UNone | UUtc | UOther.
+Definition upd_none (u : upd) : bool := match u with UNone => true | _ => false end.
+Definition upd_truthy (u : upd) : bool := negb (upd_none u).
+Definition upd_utc (u : upd) : bool := match u with UUtc => true | _ => false end.
